@@ -12,6 +12,7 @@ from .c04 import jdiff, split_known_names
 
 ID = "C15"
 BUDGET = {"quick": (4, 2500), "thorough": (16, 25000)}
+FUZZ = {"jobs": 8, "runs": 40000, "max_len": 4096, "timeout_s": 600}
 TECHNIQUE = "grammar-based mutation fuzzing (Hypothesis; thorough tier also coverage-guided via Atheris) with a must-reject oracle"
 RULE = (
     "Generated: a valid document (tree spec + fills -> toJson(), so the grammar is the library's own output) and one "
